@@ -5,7 +5,8 @@ import OsmtProofs.Conc
 The one piece of state that instances share by design is the pool of big rationals.  With its mutex every concurrent
 execution is a sequence of `alloc` / `release` steps of the pool machine, for which: a cell handed out is never one that is
 still in use (`C24_alloc_fresh`), and the invariant "every cell is free or in use, never both, never twice" is kept by both
-operations (`C24_alloc_inv`, `C24_release_inv`).  That there is no *other* shared mutable state, no data race and no memory
+operations (`C24_alloc_inv`, `C24_release_inv`); lifted to every interleaving of any number of threads
+(`C24_every_schedule_inv`), no cell is ever held by two threads at once (`C24_every_schedule_exclusive`).  That there is no *other* shared mutable state, no data race and no memory
 error is not a theorem: it is searched for with ThreadSanitizer on concurrently solving instances whose coefficients force
 the arbitrary-precision path, and every concurrent answer is compared with the answer of the same instance alone.
 -/
@@ -16,6 +17,20 @@ theorem C24_alloc_fresh (p : Pool) (h : p.Inv) : (p.alloc).2 ∉ p.inUse := allo
 theorem C24_alloc_inv (p : Pool) (h : p.Inv) : (p.alloc).1.Inv := alloc_inv p h
 theorem C24_release_inv (p : Pool) (c : Nat) (h : p.Inv) (hc : c ∈ p.inUse) : (p.release c).Inv := release_inv p c h hc
 theorem C24_empty_inv : ({} : Pool).Inv := inv_empty
+
+/-- every schedule: whatever the order in which any number of threads allocate and release (a thread releases only a cell it
+    holds), the state reached from the empty pool keeps the invariant … -/
+theorem C24_every_schedule_inv (ops : List POp) : (({} : Sys).run ops).Inv := sys_run_inv _ ops sys_inv_init
+/-- … in it no cell is held by two threads at once … -/
+theorem C24_every_schedule_exclusive (ops : List POp) (c t1 t2 : Nat)
+    (h1 : (c, t1) ∈ (({} : Sys).run ops).owner) (h2 : (c, t2) ∈ (({} : Sys).run ops).owner) : t1 = t2 :=
+  sys_exclusive _ (sys_run_inv _ ops sys_inv_init) c t1 t2 h1 h2
+/-- … and the cell the next `alloc` hands out is held by no thread -/
+theorem C24_every_schedule_alloc_unowned (ops : List POp) (t t' : Nat) :
+    ((({} : Sys).run ops).pool.alloc.2, t') ∉ (({} : Sys).run ops).owner :=
+  sys_alloc_unowned _ (sys_run_inv _ ops sys_inv_init) t'
+
+example : (({} : Sys).run [.alloc 1, .alloc 2, .release 1 0, .alloc 2, .release 1 0]).owner = [(0, 2), (1, 2)] := by decide
 
 example : (({} : Pool).alloc.1.alloc.1.release 0).alloc.2 = 0 := by decide
 
